@@ -96,5 +96,4 @@ def check_last_getters(res, n):
 
 
 def replay(res, rp):
-    print("replay:", rp.get("input"))
-    return 0
+    return wl.replay(res, rp)
